@@ -45,16 +45,15 @@ pub struct PanicInfo {
 impl PanicInfo {
     /// Classifier signature: location + message with digits and quoted payloads collapsed.
     pub fn sig(&self) -> String {
+        // location + the first three words of the message (payload details vary per input)
+        let words: Vec<&str> = self.msg.split_whitespace().take(3).collect();
         let mut m = String::new();
-        let mut last_digit = false;
-        for ch in self.msg.chars().take(80) {
+        for ch in words.join(" ").chars().take(40) {
             if ch.is_ascii_digit() {
-                if !last_digit {
+                if !m.ends_with('N') {
                     m.push('N');
                 }
-                last_digit = true;
             } else {
-                last_digit = false;
                 m.push(ch);
             }
         }
